@@ -351,6 +351,7 @@ pub fn run(_tier: &str) -> i32 {
     quota_probe(&mut k, &mut viol, "after-second-restart", &mut checks);
     drop(k);
     srv.kill();
+    release_ports();
     println!("C10S-RESULT {}", json!({"launches":launches,"checks":checks,"violations":viol.to_json()}));
     0
 }
